@@ -23,6 +23,11 @@ var shorten = strings.NewReplacer(
 	"github.com/dgraph-io/badger/v3", "badger",
 )
 
+// LocalNames maps the position of a `make(...)` call (its left parenthesis) to the name of the
+// local variable it initialises; filled by the loader from the syntax trees of root packages so
+// that anonymous maps and channels can be told apart in terms.
+var LocalNames = map[token.Pos]string{}
+
 // Short shortens well-known import path prefixes in rendered names.
 func Short(s string) string { return shorten.Replace(s) }
 
@@ -222,10 +227,16 @@ func term(v ssa.Value, depth int, onstack map[ssa.Value]bool) string {
 	case *ssa.MakeClosure:
 		return "closure:" + FuncName(x.Fn.(*ssa.Function))
 	case *ssa.MakeMap:
+		if n := LocalNames[x.Pos()]; n != "" {
+			return "map:" + n
+		}
 		return "makemap"
 	case *ssa.MakeSlice:
 		return "makeslice(" + term(x.Len, depth+1, onstack) + ")"
 	case *ssa.MakeChan:
+		if n := LocalNames[x.Pos()]; n != "" {
+			return "chan:" + n
+		}
 		return "makechan"
 	case *ssa.Select:
 		return "select"
